@@ -3,6 +3,7 @@ package main
 // Contract files: //@ lines in <pkg>/verif_contracts.go (build tag verif).
 
 import (
+	"sort"
 	"fmt"
 	"go/ast"
 	"go/parser"
@@ -83,6 +84,8 @@ type ContractSet struct {
 	Devirt map[string]string   // interface type (full name) -> concrete type expression, with the declaring package path: "<pkgpath>|<type>"
 	TypeInvs map[string]string // type (full name) -> "<pkgpath>|<pred name>"
 	Schemas  []*Schema
+	AbsPreds   map[string]bool // "<pkgpath>.<name>": abstract predicate family over interface values, defined per dynamic type by pred name@Type
+	AbsMethods map[string]bool // "<pkgpath>.<Method>": zero-argument interface methods modelled as pure functions of (receiver, heap epoch)
 }
 
 // Schema: one contract template for every function whose name matches Re (and for calls through values of the named func type).
@@ -90,24 +93,28 @@ type Schema struct {
 	Name     string
 	Pkg      string
 	Re       *regexp.Regexp
-	Except   *regexp.Regexp
+	Except   *regexp.Regexp // on the function name, or for method schemas on "Type.Method"
+	Method   bool
 	TypeName string
 	C        *Contract
 	CallReq  []*Clause // requires checked at calls through the function type (defaults to C.Requires)
 }
 
-var reKeyword = regexp.MustCompile(`^(func|schema|assumes|trustkind|pred|spec|axiom|devirt|typeinv|typereq|callrequires|notypeinv|uses|requires|ensures(\[[^\]]*\])?|assigns|loop|inline|trusted|pure|lemma)\b`)
+var reKeyword = regexp.MustCompile(`^(func|schema|absmethod|abspred|assumes|trustkind|pred|spec|axiom|devirt|typeinv|typereq|callrequires|notypeinv|uses|requires|ensures(\[[^\]]*\])?|assigns|loop|inline|trusted|pure|lemma)\b`)
 
 func loadContracts(pkgDirs map[string]string) *ContractSet {
-	cs := &ContractSet{ByFunc: map[string]*Contract{}, Specs: map[string]*SpecFn{}, Axioms: map[string][]*Clause{}, Devirt: map[string]string{}, TypeInvs: map[string]string{}}
+	cs := &ContractSet{ByFunc: map[string]*Contract{}, Specs: map[string]*SpecFn{}, Axioms: map[string][]*Clause{}, Devirt: map[string]string{}, TypeInvs: map[string]string{}, AbsMethods: map[string]bool{}, AbsPreds: map[string]bool{}}
 	for pkgPath, dir := range pkgDirs {
-		fn := filepath.Join(dir, "verif_contracts.go")
-		b, err := os.ReadFile(fn)
-		if err != nil {
-			continue
+		fns, _ := filepath.Glob(filepath.Join(dir, "verif_contracts*.go"))
+		sort.Strings(fns)
+		for _, fn := range fns {
+			b, err := os.ReadFile(fn)
+			if err != nil {
+				continue
+			}
+			cs.Files = append(cs.Files, fn)
+			cs.parseFile(pkgPath, fn, string(b))
 		}
-		cs.Files = append(cs.Files, fn)
-		cs.parseFile(pkgPath, fn, string(b))
 	}
 	return cs
 }
@@ -187,7 +194,7 @@ func (cs *ContractSet) parseFile(pkgPath, file, src string) {
 		case "schema":
 			// schema <name> func <regexp> [type <FuncTypeName>]
 			f := strings.Fields(rest)
-			if len(f) < 3 || f[1] != "func" {
+			if len(f) < 3 || (f[1] != "func" && f[1] != "method") {
 				cs.errf(file, it.line, "bad schema header")
 				continue
 			}
@@ -196,7 +203,7 @@ func (cs *ContractSet) parseFile(pkgPath, file, src string) {
 				cs.errf(file, it.line, "bad schema regexp: %v", err)
 				continue
 			}
-			sch := &Schema{Name: f[0], Pkg: pkgPath, Re: re}
+			sch := &Schema{Name: f[0], Pkg: pkgPath, Re: re, Method: f[1] == "method"}
 			for k := 3; k+1 < len(f); k += 2 {
 				switch f[k] {
 				case "type":
@@ -214,6 +221,14 @@ func (cs *ContractSet) parseFile(pkgPath, file, src string) {
 			cur = &Contract{Func: "schema:" + f[0], Pkg: pkgPath, Invs: map[int][]*Clause{}, Decr: map[int]*Clause{}, NoTerm: map[int]bool{}, Unroll: map[int]int{}, Line: it.line, File: file}
 			sch.C = cur
 			cs.Schemas = append(cs.Schemas, sch)
+		case "abspred":
+			for _, m := range strings.Fields(rest) {
+				cs.AbsPreds[pkgPath+"."+m] = true
+			}
+		case "absmethod":
+			for _, m := range strings.Fields(rest) {
+				cs.AbsMethods[pkgPath+"."+m] = true
+			}
 		case "pred", "spec":
 			sf, err := parseSpecFn(rest, word == "pred")
 			if err != nil {
